@@ -706,7 +706,7 @@ def _serde():
         s_, d_ = KINDS[src]["ty"], KINDS[dst]["ty"]
         inst(f"serde_rt_{src}_{dst}_n8_hint", f"serde_h::roundtrip::<{s_}, {d_}, 8>(true)", dst, 8, {"C15": t}, "SERDE",
              meta=dict(op="serialize->deserialize", source=src, target=dst, n=8, size_hint=True),
-             covers_required=False, cost=600 if dst == "dq" else 150, mem=7 if dst == "dq" else 5)
+             covers_required=False, cost=600 if dst == "dq" else 150, mem=12 if dst == "dq" else 5)
     for dst in ("pq", "dq"):
         d = KINDS[dst]["ty"]
         for l, seqs in {0: [("e", [])], 1: [("a", [1])], 2: [("ab", [1, 2]), ("aa", [3, 3])],
